@@ -171,6 +171,13 @@ let cases = ref 0
 let counters : (string, int) Hashtbl.t = Hashtbl.create 32
 let count key = Hashtbl.replace counters key (1 + (try Hashtbl.find counters key with Not_found -> 0))
 
+(* distinct non-trivial cases: a key (the canonical input) is counted once, only when non-trivial *)
+let seen : (string, unit) Hashtbl.t = Hashtbl.create 4096
+let distinct_nontrivial = ref 0
+let note_case (key : string) (nontrivial : bool) =
+  if nontrivial && not (Hashtbl.mem seen key) then begin
+    Hashtbl.replace seen key (); incr distinct_nontrivial end
+
 (* FAIL <case id> <CORR|SPEC> <check name> <detail> *)
 let fail id kind name detail =
   incr fails;
@@ -179,7 +186,7 @@ let fail id kind name detail =
 let trunc s = if String.length s > 300 then String.sub s 0 300 ^ "..." else s
 
 let finish () =
-  Printf.printf "STATS\tcases=%d\tfails=%d" !cases !fails;
+  Printf.printf "STATS\tcases=%d\tfails=%d\tdistinct_nontrivial=%d" !cases !fails !distinct_nontrivial;
   Hashtbl.iter (fun k v -> Printf.printf "\t%s=%d" k v) counters;
   print_newline ()
 
